@@ -16,6 +16,8 @@ U: bounds within [0,1] (analytic), sub-ulp float effects."""
 from fractions import Fraction
 
 from .. import terms as T
+from .. import fclass
+from ..order import NotParametric
 from ..ivl import IvlModel
 from ..meanci import ConfModel, KINDS, F0, F1, F2, NORMAL, crit, unwrap_ok, SubstPath, nonneg_crit
 from ..nf import Ctx as NF, NotReal
@@ -358,7 +360,7 @@ def run_cfg(chk, facts, cfg):
             if cls is None:
                 probs.append('carried integer %s is not a counter of the elements / successes (steps: %s)' % (label, sorted(ks, key=repr)))
                 continue
-            classes[label] = cls
+            classes[hs[1]] = cls   # keyed by the carried symbol: two fields of one struct share a label
             inc = {'N': N, 'K': K, 'F': T.op('sub', N, K), '0': T.mk_int(0)}[cls]
             sub[hs] = T.op('add', init, inc) if init != T.mk_int(0) else inc
         if not any(c == 'N' for c in classes.values()) and not probs:
@@ -460,9 +462,43 @@ def run_cfg(chk, facts, cfg):
                 okk = kt[0] == 'op' and kt[1] == 'f2i' and kt[2][0][0] == 'op' and kt[2][0][1] == 'round' and nf.term_equal(kt[2][0][2][0], want)
                 if not okk:
                     probs.append('the count handed to the Wilson interval is %s, not round(r*n)' % T.show(kt))
-            good_np = len(nonpos) == 1 and any(a[0] == 'op' and a[1] == 'le' and pol and a[2] == (R, F0) for a, pol in nonpos[0].guard)
-            if not good_np:
-                probs.append('r <= 0 is not rejected with NonPositiveValue')
+            # exact IEEE partition of r at 0: NaN | -inf | (-inf,0) | {0} | (0,inf) | +inf.  The paths that can be
+            # taken in a cell are those whose literals about r alone hold there (other literals: unknown).
+            def r_only(a):
+                if a[0] != 'op':
+                    return False
+                if a[1] in ('not',):
+                    return r_only(a[2][0])
+                if a[1] in ('and', 'or'):
+                    return all(r_only(x) for x in a[2])
+                if a[1] == 'is_nan':
+                    return fclass.strip(a[2][0]) == R
+                if a[1] in fclass.SWAP and len(a[2]) == 2:
+                    x, y = fclass.strip(a[2][0]), fclass.strip(a[2][1])
+                    return (x == R and y[0] == 'flt' and not isinstance(y[1], str)) or (y == R and x[0] == 'flt' and not isinstance(x[1], str))
+                return False
+
+            def may_hold(p_, cell):
+                for a, pol in p_.guard:
+                    if a[0] != 'variant' and r_only(a) and fclass.eval_bool(a, {'r': cell}) != pol:
+                        return False
+                return True
+            consts = fclass.constants_compared(paths, 'r') | {Fraction(0)}
+            np_probs = []
+            for cell in fclass.cells(consts):
+                nonposcell = cell in ('-inf',) or (not isinstance(cell, str) and ((cell[0] == 'pt' and cell[1] <= 0) or (cell[0] == 'open' and cell[2] is not None and cell[2] <= 0)))
+                try:
+                    takers = [p_ for p_ in paths if may_hold(p_, cell)]
+                except NotParametric as e:
+                    np_probs.append('undecided: %s' % e)
+                    break
+                rej = [p_ for p_ in takers if p_ in nonpos]
+                if nonposcell and (not rej or len(rej) != len(takers)):
+                    np_probs.append('r in %s is not always rejected with NonPositiveValue' % fclass.cell_str(cell))
+                if not nonposcell and rej and cell != 'nan':   # a NaN ratio implies no count: the property leaves it open
+                    np_probs.append('r in %s can be rejected with NonPositiveValue' % fclass.cell_str(cell))
+            if not nonpos or np_probs:
+                probs.append('r <= 0 is not rejected with NonPositiveValue' + (': ' + '; '.join(np_probs[:3]) if np_probs else ''))
             chk.ob('%s:ci_wilson_ratio%s' % (PID, sfx), 'E3', 'the success-ratio form is the interval of round(r*n) successes; r <= 0 => NonPositiveValue',
                    not probs, '; '.join(probs), where, sample={'fn': 'ci_wilson_ratio'})
             # the whole front-end, with the implied count named k, must be the Wilson producer of (n, k):
@@ -470,16 +506,23 @@ def run_cfg(chk, facts, cfg):
             if not probs:
                 kterm = T.op('f2i', T.op('round', T.op('mul', R, FN)))
 
+                def pos_holds(p_, cell):
+                    try:
+                        return may_hold(p_, cell)
+                    except NotParametric:
+                        return True
+
                 def mk_ratio(kind):
                     sx2, paths2 = summ(facts, fn, ['confidence', 'n', 'r'], [cm.value(kind, L), None, None])
                     # r > 0 region only (r <= 0 is rejected above); drop those paths by their guard
-                    keep = [p_ for p_ in paths2 if err_variant(facts, p_.ret) != 'NonPositiveValue']
+                    keep = [p_ for p_ in paths2 if err_variant(facts, p_.ret) != 'NonPositiveValue'
+                            and any(pos_holds(p_, c_) for c_ in (('open', Fraction(0), None), 'inf'))]
                     return sx2, keep, {kterm: K}
 
                 def strip_r(paths_):
                     return paths_
                 producer(chk, facts, nf, im, cm, fn, 'wilson', 'ci_wilson_ratio', sfx, make_args=mk_ratio, extra_ranges={'r': (Fraction(0), None, True, True)},
-                         drop_literal=lambda a: a[0] == 'op' and a[1] == 'le' and a[2] == (R, F0))
+                         drop_literal=r_only)
         except Unsupported as e:
             chk.ob('%s:ci_wilson_ratio%s' % (PID, sfx), 'E3', 'ratio form', None, str(e), where)
 
